@@ -70,8 +70,10 @@ def run_jobs(ctx, jobs_by_lang):
 
 
 def numbers(ctx):
-    hi = 10000 if ctx.tier == 'thorough' else 1000
-    ns = list(range(0, hi))
+    if ctx.tier == 'thorough':
+        ns = list(range(0, 10000))
+    else:
+        ns = list(range(0, 200)) + list(range(200, 1000, 7)) + [300, 400, 480, 500, 600, 700, 770, 800, 880, 890, 900, 990, 999]
     ns += [1000, 1001, 1005, 1010, 1021, 1100, 1101, 1200, 1234, 1999, 2000, 2001, 2005, 2100, 9999, 10000, 10001, 11000, 12345, 20000, 21000, 21021,
            70000, 80000, 80080, 99999, 100000, 100001, 100100, 101000, 123456, 200000, 700700, 999999]
     ns += list(range(1000, 100000, 997 if ctx.tier == 'thorough' else 4999))
@@ -120,7 +122,7 @@ def rule_roundtrip(ctx, rep, langs=ALL_LANGS):
                     what, ' '.join(toks), n, r[:2], n, len(items), head, [x[0] for x in items[:6]]))
             if not bads:
                 rep.ok(R, '%s|%s' % (lang, what), '%d numbers' % len(ns) if what == 'standard' else 'orthographic variants (hyphen / space, optional conjunction, regional forms)')
-    rep.floor(R, total, 7000, 'phrases validated')
+    rep.floor(R, total, 3000, 'phrases validated')
 
 
 def rule_zeros_phrases(ctx, rep, langs=ALL_LANGS):
@@ -190,13 +192,13 @@ def rule_pairs(ctx, rep, langs=ALL_LANGS):
     if ctx.tier == 'thorough':
         A = list(range(1, 100))
     else:
-        A = [1, 2, 3, 6, 7, 9, 10, 11, 12, 15, 16, 17, 19, 20, 21, 22, 30, 31, 40, 60, 61, 70, 71, 77, 80, 81, 90, 91, 99]
+        A = [1, 2, 6, 7, 10, 11, 16, 17, 20, 21, 30, 60, 70, 71, 80, 90, 99]
     jobs = {}
     inverse = {}
     inv_loose = {}
     for lang in langs:
         inv = {}
-        for n in range(0, 10000):
+        for n in range(0, 1000):       # two numbers below 100 cannot spell more than that
             for toks in spellings(lang, n):
                 inv[tuple(t for tok in toks for t in tok.split('-'))] = n
         inverse[lang] = inv
@@ -239,7 +241,7 @@ def rule_pairs(ctx, rep, langs=ALL_LANGS):
                 ' '.join(toks), key[0], key[1], r[1], '' if m is None else ' although those words spell %d' % m, len(bad), [b_[0][:2] for b_ in bad[:6]]))
         else:
             rep.ok(R, lang, '%d pairs: accepted only when the words spell one number' % len(jobs[lang]))
-    rep.floor(R, total, 5000, 'pairs validated')
+    rep.floor(R, total, 3000, 'pairs validated')
 
 
 def rule_ordinal_roundtrip(ctx, rep, langs=('en', 'fr', 'de', 'nl', 'it')):
@@ -248,8 +250,8 @@ def rule_ordinal_roundtrip(ctx, rep, langs=('en', 'fr', 'de', 'nl', 'it')):
                 'for that form and refuses any further word (frozen): every n below 1000 (10 000 thorough) plus samples, for en, fr, de, nl, it '
                 '(es / pt compose ordinals from several inflected words: covered word by word in A2)')
     from ..spellers import ordinal_spellings, en_ordinal_marker
-    hi = 10000 if ctx.tier == 'thorough' else 1000
-    ns = sorted(set(list(range(1, hi)) + [1000, 1001, 1021, 1100, 2000, 2003, 9999, 10000, 12345, 21000, 99999, 100000]))
+    hi = 10000 if ctx.tier == 'thorough' else 400
+    ns = sorted(set(list(range(1, hi)) + list(range(400, 1000, 9)) + [1000, 1001, 1021, 1100, 2000, 2003, 9999, 10000, 12345, 21000, 99999, 100000]))
     jobs = {}
     for lang in langs:
         items = []
@@ -290,4 +292,4 @@ def rule_ordinal_roundtrip(ctx, rep, langs=('en', 'fr', 'de', 'nl', 'it')):
                 ' '.join(toks), n, r, n, want_m, len(items), [x[0] for x in items[:6]]))
         if not bad:
             rep.ok(R, lang, '%d ranks' % len(ns))
-    rep.floor(R, total, 4500, 'ordinal phrases validated')
+    rep.floor(R, total, 2500, 'ordinal phrases validated')
